@@ -736,6 +736,12 @@ _BTree_set(BTree *self, PyObject *keyarg, PyObject *value,
      */
     PyObject *dead_key = NULL;
 #endif
+    /* The same holds for an emptied child and for a first bucket that is
+     * replaced:  a leaf class defined in Python can have weak references
+     * whose callbacks run when it is released.
+     */
+    PyObject *dead_child = NULL;
+    PyObject *dead_first = NULL;
 
     KEY_TYPE key;
     int copied = 1;
@@ -911,7 +917,8 @@ _BTree_set(BTree *self, PyObject *keyarg, PyObject *value,
             PER_UNUSE(d->child);
 
             Py_XINCREF(nextbucket);
-            Py_DECREF(self->firstbucket);
+            Py_XDECREF(dead_first);
+            dead_first = (PyObject *)self->firstbucket;
             self->firstbucket = nextbucket;
             changed = 1;
 
@@ -960,15 +967,16 @@ _BTree_set(BTree *self, PyObject *keyarg, PyObject *value,
             PER_UNUSE(d->child);
 
             Py_XINCREF(nextbucket);
-            Py_DECREF(self->firstbucket);
+            Py_XDECREF(dead_first);
+            dead_first = (PyObject *)self->firstbucket;
             self->firstbucket = nextbucket;
 
             status = 2; /* we're giving our caller a new firstbucket problem */
         }
     }
 
-    /* Remove the child from self->data. */
-    Py_DECREF(d->child);
+    /* Remove the child from self->data (it is released at the exit). */
+    dead_child = (PyObject *)d->child;
 #ifdef KEY_TYPE_IS_PYOBJECT
     if (min)
     {
@@ -1004,6 +1012,8 @@ Done:
 #ifdef KEY_TYPE_IS_PYOBJECT
     Py_XDECREF(dead_key);
 #endif
+    Py_XDECREF(dead_child);
+    Py_XDECREF(dead_first);
     return status;
 
 Error:
@@ -1019,6 +1029,8 @@ Error:
 #ifdef KEY_TYPE_IS_PYOBJECT
     Py_XDECREF(dead_key);
 #endif
+    Py_XDECREF(dead_child);
+    Py_XDECREF(dead_first);
     return -1;
 }
 
